@@ -21,7 +21,7 @@ from . import common
 
 RULE = ("cases: (planar graph with string or int labels, trace, any configuration, a permutation of the node order and of every "
         "neighbour list); cases biased to early stops with non-emitting states and to exact ties (lattice maps, observations "
-        "exactly on nodes / edge mid points); non-trivial = non-empty result and some column of the lattice holds >= 2 candidates; "
+        "exactly on nodes / edge mid points; star maps with mirror-image spokes and a hub that may list itself); non-trivial = non-empty result and some column of the lattice holds >= 2 candidates; "
         "distinct = case JSON")
 ASSUMPTIONS = ["5 worker processes with PYTHONHASHSEED in {0, 1, 42, 4242, 1 + VERIF_SEED mod (2^32-1)} (never 'random', so a run is a "
                "function of the seed)", "process independence is compared strictly (no tie exception); order independence on index and "
